@@ -4,11 +4,12 @@ driven by the statements the parser really executes, in the order of the transit
 Property theorems only (model: Model/ParserPoolsDrive.lean; lemmas: Lemmas/ParserPoolsDrive.lean).
 -/
 import VaxisModel.Lemmas.ParserPoolsDrive
+import VaxisModel.Lemmas.ParserPoolsLink
 import VaxisModel.Props.C08Pools
 
 namespace VaxisModel.Props.C08Drive
 open VaxisModel.Model.ParserTable VaxisModel.Model.Parser VaxisModel.Model.ParserPools
-open VaxisModel.Model.ParserPoolsDrive VaxisModel.Lemmas.ParserPoolsDrive
+open VaxisModel.Model.ParserPoolsDrive VaxisModel.Lemmas.ParserPoolsDrive VaxisModel.Lemmas.ParserPoolsLink
 
 /-- **The parser's action order is a run of the pool model.**  For any table (the hand-written one,
     the one regenerated from the source), any input runes, any answers of `intermediatePool.Get()`
@@ -37,12 +38,37 @@ theorem driven_delivered_immutable (T : Table) (ls : List DLabel) (d : DSt) (h :
   cases h1
   exact VaxisModel.Props.C08Pools.delivered_contents_immutable d.trace d.pool h2 x hx
 
+/-- **The slice is the automaton's `inter` — wherever it matters.**  The automaton model
+    (`Model/Parser.lean`, the one the C02 theorems are about) keeps `p.intermediate` as a list and sets
+    it to `[]` at a dispatch; the code takes whatever `intermediatePool.Get()` returns, stale length and
+    all.  In every state the composite reaches with the parser's table — any input, any `Get` answers,
+    any `Finish` calls — either the parser is in a state in which nothing reads `p.intermediate` before
+    the next `clear()` (ground, dcsPassthrough: `Props.C08Pools.stale_intermediate_unobservable`), or the
+    slice of the pool model reads exactly the automaton's `inter`.  (Table-wide check of every row of
+    `anywhere` and of the 16 state functions, kernel-decided for runes ≤ 256, interval lemma above.) -/
+theorem driven_slice_reads_inter (ls : List DLabel) (d : DSt) (h : drun handTable DSt.init ls = some d) :
+    isDeadB d.ps.state = true ∨ contents d.pool = d.ps.inter :=
+  (drun_inv ls DSt.init d DInv_init h).link
+
+/-- **What the consumer receives is what the automaton collected.**  At every hand-over
+    (`seq.Intermediate = p.intermediate; p.intermediate = pool.Get()` in `escapeDispatch`, `csiDispatch`,
+    `hook`, taken exactly when the slice is non-empty) along any composite run with the parser's
+    table, the slice handed over — the snapshot of the delivered record, which stays what the consumer
+    reads until `Finish` (`driven_delivered_immutable`) — reads exactly the list `inter` that the
+    automaton model puts into the `ESC` / `CSI` / `DCS` value at that statement.  So the C02 theorems
+    about delivered intermediates (exact intermediates, exactly once) hold of the storage the consumer
+    really reads, with recycling. -/
+theorem driven_handover_is_collected (ls : List DLabel) (d : DSt) (h : drun handTable DSt.init ls = some d) :
+    ∀ v ∈ d.acc.views, v.auto = v.slice :=
+  (drun_inv ls DSt.init d DInv_init h).good
+
 -- `ESC ( B` delivered and held; `ESC ) 0` reuses nothing (no Finish): two arrays, both intact;
 -- then Finish of the first and `ESC * A` with Get returning its slice: the held second one is intact
 example : (drun handTable DSt.init
     [.rune 0x1B {}, .rune 0x28 {}, .rune 0x42 {}, .rune 0x1B {}, .rune 0x29 {}, .rune 0x30 {},
      .finish 1, .rune 0x1B {}, .rune 0x2A {}, .rune 0x41 { g := some 0 }]).map
-      (fun d => (d.out, d.pool.delivered.map (·.snap), allIntact d.pool)) =
-    some ([.esc [0x28] 0x42, .esc [0x29] 0x30, .esc [0x2A] 0x41], [[0x2A], [0x29]], true) := by decide
+      (fun d => (d.out, d.pool.delivered.map (·.snap), allIntact d.pool, d.acc.views)) =
+    some ([.esc [0x28] 0x42, .esc [0x29] 0x30, .esc [0x2A] 0x41], [[0x2A], [0x29]], true,
+      [⟨[0x28], [0x28]⟩, ⟨[0x29], [0x29]⟩, ⟨[0x2A], [0x2A]⟩]) := by decide
 
 end VaxisModel.Props.C08Drive
